@@ -67,6 +67,7 @@ struct item {
     const char *val;
     size_t len;
   } o[2];
+  int solo; /* the item is only used on its own (the repetition sweep), not in pairs / triples with other items */
 };
 enum { G_NONE, G_CF, G_OBS, G_HL, G_PS, G_NR };
 static const struct item items[] = {
@@ -96,6 +97,26 @@ static const struct item items[] = {
     {"elective-2050", G_NONE, 1, {{2050, "e", 1}}},
     {"2xContent-Format", G_CF, 2, {{12, "", 0}, {12, "", 0}}},
     {"2xETag", G_NONE, 2, {{4, "\x01", 1}, {4, "\x02", 1}}},
+    /* the repetition sweep: every option the statement's protocol family defines, twice, with legal values */
+    {"2xIf-Match", G_NONE, 2, {{1, "\x01", 1}, {1, "\x02", 1}}, 1},
+    {"2xUri-Host", G_NONE, 2, {{3, "h", 1}, {3, "h", 1}}, 1},
+    {"2xIf-None-Match", G_NONE, 2, {{5, "", 0}, {5, "", 0}}, 1},
+    {"2xObserve", G_OBS, 2, {{6, "", 0}, {6, "", 0}}, 1},
+    {"2xUri-Port", G_NONE, 2, {{7, "\x16\x33", 2}, {7, "\x16\x33", 2}}, 1},
+    {"2xMax-Age", G_NONE, 2, {{14, "\x3c", 1}, {14, "\x3c", 1}}, 1},
+    {"2xUri-Query", G_NONE, 2, {{15, "x=1", 3}, {15, "y=2", 3}}, 1},
+    {"2xHop-Limit", G_HL, 2, {{16, "\x05", 1}, {16, "\x05", 1}}, 1},
+    {"2xAccept", G_NONE, 2, {{17, "", 0}, {17, "", 0}}, 1},
+    {"2xBlock2", G_NONE, 2, {{23, "\x02", 1}, {23, "\x02", 1}}, 1},
+    {"2xSize2", G_NONE, 2, {{28, "", 0}, {28, "", 0}}, 1},
+    {"2xProxy-Uri", G_NONE, 2, {{35, "coap://h/x", 10}, {35, "coap://h/x", 10}}, 1},
+    {"2xProxy-Scheme", G_PS, 2, {{39, "coap", 4}, {39, "coap", 4}}, 1},
+    {"2xSize1", G_NONE, 2, {{60, "\x10", 1}, {60, "\x10", 1}}, 1},
+    {"2xEcho", G_NONE, 2, {{252, "e1", 2}, {252, "e2", 2}}, 1},
+    {"2xNo-Response", G_NR, 2, {{258, "", 0}, {258, "", 0}}, 1},
+    {"2xRequest-Tag", G_NONE, 2, {{292, "a", 1}, {292, "b", 1}}, 1},
+    {"Echo", G_NONE, 1, {{252, "e1", 2}}, 1},
+    {"Request-Tag", G_NONE, 1, {{292, "a", 1}}, 1},
 };
 #define N_ITEMS ((int)(sizeof items / sizeof items[0]))
 
@@ -118,6 +139,8 @@ build_optsets(void) {
     }
     for (int a = 0; a < N_ITEMS && k >= 2; a++)
       for (int b = a + 1; b < N_ITEMS; b++) {
+        if (items[a].solo || items[b].solo)
+          continue;
         if (items[a].group && items[a].group == items[b].group)
           continue;
         optsets[k][n++] = (struct optset){2, {a, b, 0}};
@@ -126,6 +149,8 @@ build_optsets(void) {
       for (int b = a + 1; b < N_ITEMS; b++)
         for (int c = b + 1; c < N_ITEMS; c++) {
           int ga = items[a].group, gb = items[b].group, gc = items[c].group;
+          if (items[a].solo || items[b].solo || items[c].solo)
+            continue;
           if ((ga && (ga == gb || ga == gc)) || (gb && gb == gc))
             continue;
           optsets[k][n++] = (struct optset){3, {a, b, c}};
@@ -915,7 +940,21 @@ eval_case(const struct casedef *cp, uint64_t idx, struct verdict *v) {
               bad_opts = 1;
           }
         }
-        const struct rs_opt *uq = rs_find(&b.q, RS_O_URI_QUERY);
+        /* the query string handed to the handler: all Uri-Query options joined by '&' */
+        struct rs_opt uq_joined = {0}, *uq = NULL;
+        static uint8_t uq_buf[64];
+        size_t uq_n = 0;
+        for (int i = 0; i < b.q.nopt; i++)
+          if (b.q.opt[i].num == RS_O_URI_QUERY && uq_n + b.q.opt[i].len + 1 < sizeof uq_buf) {
+            if (uq)
+              uq_buf[uq_n++] = '&';
+            memcpy(uq_buf + uq_n, b.q.opt[i].val, b.q.opt[i].len);
+            uq_n += b.q.opt[i].len;
+            uq = &uq_joined;
+          }
+        uq_joined.num = RS_O_URI_QUERY;
+        uq_joined.val = uq_buf;
+        uq_joined.len = uq_n;
         if (bad_path)
           FAIL("handler-args:path");
         else if (bad_opts)
